@@ -36,7 +36,6 @@ WHY = {  # finding id (or prefix) -> why it is listed instead of repaired
  "C15-solver-failure-ignored": "_solve_max_point ignores the solver's success flag and BFGS settings are fixed; needs scaling-aware solver settings or raising on failure",
  "C16-lm-absolute-damping-floor-small-residuals": "making nu0 relative changes every LM trajectory",
  "C16-lm-sparse-singular-step-nan": "rejecting non-finite trials (tried) turns the NaN return into a stalled run to maxit; needs a proper singular-step strategy",
- "C08-nan-leaf-poisons-step-size": "a NaN leaf makes the acceptance statistic NaN; treating a non-finite energy error as acceptance 0 touches both NUTS implementations (their equivalence is pinned by tests) - left as a finding",
  "C16-lm-absolute-damping-floor-tiny-residuals-stop": "same root cause as C16-lm-absolute-damping-floor-small-residuals",
  "C12-samples-funvals-flag-ignored": "honouring is_par/is_vec of a Samples input changes behaviour of Model.__call__ on Samples",
  "C13-funvec-shape-stale-after-regrid": "invalidating the cached funvec_shape interacts with geometry equality (derived attribute compared in _all_values_equal)",
